@@ -465,7 +465,7 @@ def gen_C06():
     hi = tr.expr(_nth_assigned(fn, "interval_upper", "np.maximum"))
     out.append(lean_def("straddle_lower", [("lo", "Rat"), ("pred", "Rat")], "Rat", "  " + lo))
     out.append(lean_def("straddle_upper", [("hi", "Rat"), ("pred", "Rat")], "Rat", "  " + hi))
-    return out + _boot_agg_defs() + _nonreporting_bounds_defs()
+    return out + _boot_agg_defs() + _nonreporting_bounds_defs() + _clip_stage_defs()
 
 
 class _BoundsFlow(NFlow):
@@ -508,6 +508,107 @@ def _nonreporting_bounds_defs():
             raise TranslateError("_generate_nonreporting_bounds: return (lower, upper)")
         out.append(lean_def(f"{tag}_lower_bound", params, "Rat", "  " + fl.final(fl.value(fl.ret.elts[0]))))
         out.append(lean_def(f"{tag}_upper_bound", params, "Rat", "  " + fl.final(fl.value(fl.ret.elts[1]))))
+    return out
+
+
+class _ClipFlow(_BoundsFlow):
+    """_BoundsFlow + two-sided `x.clip(min=a, max=b)` (numpy: `minimum(maximum(x, a), b)`), tuple / subscript assignment targets poison
+    the names they touch, `x.mean(axis=1)` of a translated per-draw term is a named leaf (the skeleton `ClipStage` in Props/C06 takes the
+    mean over the draws), and a poisoned name that is the receiver of a two-sided clip is read as a fresh universally quantified leaf
+    (whatever the statements before did to it, the clip bounds it)."""
+
+    FRESH = {"y_test_pred_B": "yPre"}
+    MEANS = {}
+
+    def _targets(self, st):
+        ts = []
+        raw = st.targets if isinstance(st, ast.Assign) else [st.target] if isinstance(st, ast.AugAssign) else []
+        for t in raw:
+            for e in (t.elts if isinstance(t, ast.Tuple) else [t]):
+                while isinstance(e, ast.Subscript):
+                    e = e.value
+                ts.append(ast.unparse(e))
+        return ts
+
+    def run(self, stmts):
+        for st in stmts:
+            # subscripted / tuple targets: poison the base names (the parent class would only handle plain names)
+            if isinstance(st, (ast.Assign, ast.AugAssign)):
+                tg = st.targets[0] if isinstance(st, ast.Assign) else st.target
+                if isinstance(tg, (ast.Tuple, ast.Subscript)) and not (isinstance(tg, ast.Subscript) and isinstance(st, ast.Assign)
+                                                                         and self.env.get(ast.unparse(tg.value)) is not None):
+                    for t in self._targets(st):
+                        self.env[t] = None
+                    continue
+            if (isinstance(st, ast.Assign) and isinstance(st.value, ast.Call) and isinstance(st.value.func, ast.Attribute)
+                    and st.value.func.attr == "clip" and isinstance(st.value.func.value, ast.Name)
+                    and st.value.func.value.id in self.FRESH and self.env.get(st.value.func.value.id) is None
+                    and sorted(k.arg for k in st.value.keywords) == ["max", "min"]):
+                self.env[st.value.func.value.id] = self.FRESH[st.value.func.value.id]
+            Flow.run(self, [st])
+            if getattr(self, "ret", None) is not None:
+                return
+
+    def _e(self, n):
+        if (isinstance(n, ast.Call) and isinstance(n.func, ast.Attribute) and n.func.attr == "clip" and not n.args
+                and sorted(k.arg for k in n.keywords) == ["max", "min"]):
+            kw = {k.arg: k.value for k in n.keywords}
+            return f"(ElexModel.rmin (ElexModel.rmax {self._num(self._e(n.func.value))} {self._e(kw['min'])}) {self._e(kw['max'])})"
+        if (isinstance(n, ast.Call) and isinstance(n.func, ast.Attribute) and n.func.attr == "mean" and not n.args
+                and [(k.arg, ast.unparse(k.value)) for k in n.keywords] == [("axis", "1")]):
+            inner = self._e(n.func.value)
+            if inner not in self.MEANS:
+                raise TranslateError("mean over the draws of an unexpected term: " + ast.unparse(n))
+            return self.MEANS[inner]
+        return super()._e(n)
+
+
+def _clip_stage_defs():
+    """the tail of BootstrapElectionModel.compute_bootstrap_errors, from the clipped turnout-factor draws to the six arrays the model
+    keeps: per unit and draw, as functions of the raw draws (`zRaw`, `yPre`: whatever the statements before the last clip computed), the
+    unit's clip bounds, its weight, the means over the draws (`yBar`, `zBar`) and the sampled residuals (`ry`, `rz`)"""
+    src, tree = _parse("models/BootstrapElectionModel.py")
+    fn = _find(tree, "BootstrapElectionModel", "compute_bootstrap_errors")
+    start = [i for i, st in enumerate(fn.body) if isinstance(st, ast.Assign) and ast.unparse(st.targets[0]) == "z_test_pred_B"]
+    if len(start) != 1:
+        raise TranslateError("compute_bootstrap_errors: z_test_pred_B is assigned %d times" % len(start))
+    leaves = {"ols_z_B.predict(x_test) + aggregate_indicator_test @ epsilon_z_hat_B": "zRaw",
+              "y_partial_reporting_lower": "yl", "y_partial_reporting_upper": "yu", "z_partial_reporting_lower": "zl",
+              "z_partial_reporting_upper": "zu", "weights_test": "w", "y_test_pred_B": None}
+    fl = _ClipFlow(src, leaves)
+    yclip = "(ElexModel.rmin (ElexModel.rmax yPre yl) yu)"
+    zclip = "(ElexModel.rmin (ElexModel.rmax zRaw zl) zu)"
+    fl.MEANS = {yclip: "yBar", zclip: "zBar"}
+    body = list(fn.body[start[0]:])
+    # the residuals come from one call whose results are leaves
+    for st in body:
+        if isinstance(st, ast.Assign) and isinstance(st.targets[0], ast.Tuple) and ast.unparse(st.targets[0]) == "(test_residuals_y, test_residuals_z)":
+            if not ast.unparse(st.value).startswith("self._sample_test_errors("):
+                raise TranslateError("compute_bootstrap_errors: test residuals come from " + ast.unparse(st.value)[:60])
+            body[body.index(st)] = ast.parse("test_residuals_y = RY\ntest_residuals_z = RZ").body
+    flat = []
+    for st in body:
+        flat.extend(st if isinstance(st, list) else [st])
+    fl.env.update({"RY": "ry", "RZ": "rz"})
+    fl.run(flat)
+    want = {"self.errors_B_1": [("yPre", "Rat"), ("zRaw", "Rat")], "self.errors_B_2": [("yBar", "Rat"), ("zBar", "Rat"), ("ry", "Rat"), ("rz", "Rat")],
+            "self.errors_B_3": [("zRaw", "Rat")], "self.errors_B_4": [("zBar", "Rat"), ("rz", "Rat")],
+            "self.weighted_yz_test_pred": [("yBar", "Rat"), ("zBar", "Rat")], "self.weighted_z_test_pred": [("zBar", "Rat")]}
+    common = [("yl", "Rat"), ("yu", "Rat"), ("zl", "Rat"), ("zu", "Rat"), ("w", "Rat")]
+    out = []
+    for k, ps in want.items():
+        if fl.env.get(k) is None:
+            raise TranslateError("compute_bootstrap_errors: " + k + " is outside the translated subset")
+        out.append(lean_def("clip_" + k.split(".")[1], ps + common, "Rat", "  " + fl.final(fl.env[k])))
+    for k, nm in (("y_test_pred_B", "clip_y_draw"), ("z_test_pred_B", "clip_z_draw")):
+        if fl.env.get(k) is None:
+            raise TranslateError("compute_bootstrap_errors: " + k)
+    out.append(lean_def("clip_y_draw", [("yPre", "Rat"), ("yl", "Rat"), ("yu", "Rat")], "Rat", "  " + fl.final(fl.env["y_test_pred_B"])))
+    out.append(lean_def("clip_z_draw", [("zRaw", "Rat"), ("zl", "Rat"), ("zu", "Rat")], "Rat", "  " + fl.final(fl.env["z_test_pred_B"])))
+    # where the bounds and the weights come from
+    out.append(_strlist("clip_bounds_from", [ast.unparse(assigned_expr(fn, "(y_partial_reporting_lower, y_partial_reporting_upper)")),
+                                             ast.unparse(assigned_expr(fn, "(z_partial_reporting_lower, z_partial_reporting_upper)")),
+                                             ast.unparse(assigned_expr(fn, "weights_test"))]))
     return out
 
 
